@@ -96,6 +96,23 @@ func c17WrapperProg(ops []c17Op) *Prog {
 	return &Prog{Stmts: append(st, Print{Args: []Expr{StrLit{V: "done"}}})}
 }
 
+// c17LateProg: the textually FIRST write, read and exists of the program sit in code that has not run (yet)
+// when the operations execute - a function defined first but called last, and a branch that is not taken.
+// Whatever a back-end sets up for the file builtins must not depend on their first site having executed.
+func c17LateProg(ops []c17Op) *Prog {
+	io := func(p Expr, c Expr) []Stmt {
+		return []Stmt{Write{Path: p, Data: c}, Write{Path: p, Data: c, Append: BoolLit{true}}, Print{Args: []Expr{StrLit{V: "late"}, ExistsE{Path: p}, StrLit{V: "S"}, ReadE{Path: p}, StrLit{V: "E"}}}}
+	}
+	st := []Stmt{
+		FuncDef{Name: "tail", Params: []Param{{"p", TStr}, {"c", TStr}}, Body: io(Var{"p"}, Var{"c"})},
+		Define{Names: []string{"never"}, Form: DefShort, Vals: []Expr{BoolLit{false}}},
+		If{Cond: Var{"never"}, Then: io(StrLit{V: "never.txt"}, StrLit{V: "x"})},
+	}
+	st = append(st, c17Stmts(ops)...)
+	st = append(st, ExprStmt{X: Call{Fn: "tail", Args: []Expr{StrLit{V: "late.txt"}, StrLit{V: "l"}}}})
+	return &Prog{Stmts: append(st, Print{Args: []Expr{StrLit{V: "done"}}})}
+}
+
 func c17Prog(ops []c17Op, inFunc bool, viaVars bool) *Prog {
 	body := c17Stmts(ops)
 	if viaVars {
@@ -239,6 +256,10 @@ func C17() int {
 			}
 			key = fmt.Sprintf("cell path=%q content=%q ctx=mixed", c.path, c.content)
 			if !judge(key, key, c17MixedProg(ops)) {
+				ok = false
+			}
+			key = fmt.Sprintf("cell path=%q content=%q ctx=first-sites-not-yet-run", c.path, c.content)
+			if !judge(key, key, c17LateProg(ops)) {
 				ok = false
 			}
 		}
